@@ -72,9 +72,11 @@ func c20Workspaces(thorough bool) [][]qnode {
 	var out [][]qnode
 	base := []qnode{
 		{pkg: "a", name: "t0", inputs: []string{"./t0.in", "shared.in"}}, // a literal input spelled non-canonically
-		{pkg: "a", name: "t1", inputs: []string{"t1.in", "shared.in"}},
+		{pkg: "a", name: "t1", inputs: []string{"{t1,t1x}.in", "shared.in"}}, // a glob whose only special characters are braces
 		{pkg: "b", name: "t0", inputs: []string{"sub/../t2.in", "sub/*.txt"}},
 		{pkg: "b", name: "e2e_test", inputs: []string{"t3.in"}, isTest: true},
+		// a target in the ROOT package, connected to nothing: patterns that name another package never reach it
+		{pkg: "", name: "r", inputs: []string{"r.in"}},
 	}
 	pairs := [][2]int{{0, 1}, {0, 2}, {0, 3}, {1, 2}, {1, 3}, {2, 3}} // dep -> dependant (lower -> higher)
 	for mask := 0; mask < 1<<len(pairs); mask++ {
@@ -151,8 +153,12 @@ func c20Source(ns []qnode) *hist.Source {
 			if strings.Contains(in, "*") {
 				s.Files[n.pkg+"/sub/g1.txt"] = hist.File{Content: "g1"}
 				s.Files[n.pkg+"/sub/g2.txt"] = hist.File{Content: "g2"}
+			} else if strings.Contains(in, "{") {
+				for _, e := range braceExpand(in) {
+					s.Files[filepath.Clean(filepath.Join(n.pkg, e))] = hist.File{Content: e}
+				}
 			} else {
-				s.Files[filepath.Clean(n.pkg+"/"+in)] = hist.File{Content: in}
+				s.Files[filepath.Clean(filepath.Join(n.pkg, in))] = hist.File{Content: in}
 			}
 		}
 	}
@@ -337,9 +343,14 @@ func c20Workspace(c *Ctx, grog, base string, wi int, ns []qnode) int64 {
 			continue
 		}
 		for _, in := range nd.inputs {
-			ps := []string{filepath.Clean(nd.pkg + "/" + in)}
+			ps := []string{filepath.Clean(filepath.Join(nd.pkg, in))}
 			if strings.Contains(in, "*") {
 				ps = []string{nd.pkg + "/sub/g1.txt", nd.pkg + "/sub/g2.txt"}
+			} else if strings.Contains(in, "{") {
+				ps = nil
+				for _, e := range braceExpand(in) {
+					ps = append(ps, filepath.Clean(filepath.Join(nd.pkg, e)))
+				}
 			}
 			for _, p := range ps {
 				if files[p] == nil {
@@ -358,7 +369,7 @@ func c20Workspace(c *Ctx, grog, base string, wi int, ns []qnode) int64 {
 	check("owners (relative path)", []string{"owners", "t0.in"}, "a", files["a/t0.in"], false)
 	// list
 	all := map[string]bool{}
-	inPkg := map[string]map[string]bool{"a": {}, "b": {}}
+	inPkg := map[string]map[string]bool{"a": {}, "b": {}, "": {}}
 	for _, nd := range ns {
 		all[nd.label] = true
 		inPkg[nd.pkg][nd.label] = true
@@ -368,6 +379,9 @@ func c20Workspace(c *Ctx, grog, base string, wi int, ns []qnode) int64 {
 	check("list", []string{"list", "//b:all"}, "", inPkg["b"], false)
 	check("list", []string{"list", "//a:t0"}, "", map[string]bool{"//a:t0": true}, false)
 	check("list", []string{"list"}, "b", inPkg["b"], false)
+	check("list", []string{"list", "//:r"}, "", map[string]bool{"//:r": true}, false)
+	check("list", []string{"list", ":r"}, "", map[string]bool{"//:r": true}, false)
+	check("list", []string{"list", "//:all"}, "a", inPkg[""], false)
 	check("list", []string{"list", ":t1"}, "a", map[string]bool{"//a:t1": true}, false)
 	check("list", []string{"list", "//a:t0", "//b/..."}, "", func() map[string]bool {
 		m := map[string]bool{"//a:t0": true}
@@ -512,4 +526,17 @@ func c20EditPart(c *Ctx, grog, base string) {
 		c.R.Sample(map[string]any{"edited_file": f, "owners": owners, "allowed": sortedKeys(allowed), "executed": executed})
 		b2.Remove()
 	}
+}
+
+// braceExpand expands one {a,b} group of a pattern.
+func braceExpand(p string) []string {
+	i, j := strings.Index(p, "{"), strings.Index(p, "}")
+	if i < 0 || j < i {
+		return []string{p}
+	}
+	var out []string
+	for _, alt := range strings.Split(p[i+1:j], ",") {
+		out = append(out, p[:i]+alt+p[j+1:])
+	}
+	return out
 }
